@@ -4,9 +4,16 @@
    listed class is reported as a VIOLATION.  Ideally empty. *)
 EXTENDS Render, Props
 
+\* the specification's own rendering equals the observed result (items with tags on the rich lines
+\* route, plain cells otherwise)
 ModelAgrees(c, run) ==
-  LET m == RenderDoc(c.doms[run.d], run.cfg, run.w) IN
-  m.k = run.res.k /\ (m.k = "ok" => m.lines = run.res.lines)
+  LET m == RenderDoc(c.doms[run.d], run.cfg, run.w)
+      rich == run.route \in {"lines", "staged_lines"} /\ run.cfg.deco = "rich" IN
+  /\ run.w >= 0
+  /\ m.k = run.res.k
+  /\ m.k = "ok" =>
+       IF rich THEN m.lines = run.res.lines
+       ELSE [i \in 1..Len(m.lines) |-> Plain(NoFrags(m.lines[i]))] = [i \in 1..Len(run.res.lines) |-> Plain(NoFrags(run.res.lines[i]))]
 
 \* C12 "pre-cont-tag": on a force-wrapped <pre> line, characters typed before the overflow was detected
 \* (and text that follows a flushed word) keep the Preformat(false) tag although they are laid out on a
@@ -18,7 +25,30 @@ KF_C12(c) ==
        IsOk(run) => LET p == C12Parts(c, run) IN p.core /\ p.tagsWeak /\ (p.tagsStrict \/ ModelAgrees(c, run))
   THEN "pre-cont-tag" ELSE ""
 
+\* C13 "estimate-per-text-node": size estimates are computed per text node, so a comment (or a span
+\* boundary) that splits a text run changes min_width and with it the TooNarrow boundary of an
+\* enclosing prefixed block.  Class: the two results differ only in kind (one Ok, one TooNarrow),
+\* and both are exactly what the recorded algorithm (Tree!Est, Render!WidthMinus) predicts.
+KF_C13(c) ==
+  IF /\ Len(c.runs) = 2
+     /\ {c.runs[1].res.k, c.runs[2].res.k} = {"ok", "narrow"}
+     /\ ModelAgrees(c, c.runs[1]) /\ ModelAgrees(c, c.runs[2])
+  THEN "estimate-per-text-node" ELSE ""
+
+\* C15 "pad-blank-line": with pad_block_width a blank line inside <pre> is padded with spaces, counts
+\* as content for start_block, and the next block is preceded by one more empty line than without
+\* padding.  Class: option = pad, both runs Ok, equal after dropping blank lines, both as predicted.
+KF_C15(c) ==
+  IF /\ "opt" \in DOMAIN c.meta /\ c.meta.opt = "pad"
+     /\ c.runs[1].res.k = "ok" /\ c.runs[2].res.k = "ok"
+     /\ LET nb(res) == SelectSeq([i \in 1..Len(res.lines) |-> RStripCodes(LineCodes(res)[i])], LAMBDA x : x # <<>>)
+        IN nb(c.runs[1].res) = nb(c.runs[2].res)
+     /\ ModelAgrees(c, c.runs[1]) /\ ModelAgrees(c, c.runs[2])
+  THEN "pad-blank-line" ELSE ""
+
 KFClass(prop, c) ==
   CASE prop = "C12" -> KF_C12(c)
+    [] prop = "C15" -> KF_C15(c)
+    [] prop = "C13" -> KF_C13(c)
     [] OTHER -> ""
 =============================================================================
